@@ -356,17 +356,24 @@ class BoxCox2(Transform):
 
     def _forward(self, x):
         nu, lam = self.params.values
-        if abs(lam) > EPS:
+        if abs(lam) > 1e-3:
             return (np.power(x + nu, lam) - 1) / lam
+        elif abs(lam) > EPS:
+            # Same formula written with expm1 to avoid the loss of
+            # accuracy of power(.., lam)-1 when lam is small
+            return np.expm1(lam * np.log(x + nu)) / lam
         else:
             return np.log(x + nu)
 
     def _backward(self, y):
         nu, lam = self.params.values
 
-        if abs(lam) > EPS:
+        if abs(lam) > 1e-3:
             u = lam * y + 1
             return np.power(u, 1. / lam) - nu
+        elif abs(lam) > EPS:
+            # Same formula written with log1p, see _forward
+            return np.exp(np.log1p(lam * y) / lam) - nu
         else:
             return np.exp(y) - nu
 
